@@ -357,7 +357,8 @@ type lspec struct {
 }
 
 type act struct {
-	kind     int // 0 est, 1 lost, 2 resolve, 3 transport constructed
+	kind     int  // 0 est, 1 lost, 2 resolve, 3 transport constructed
+	early    bool // est issued before the transport constructor returned (blocks until then)
 	p        int
 	src, dst int
 }
@@ -378,6 +379,9 @@ func (a act) term() string {
 func (a act) String() string {
 	switch a.kind {
 	case 0:
+		if a.early {
+			return fmt.Sprintf("Est %d (before the transport constructor returned)", a.p)
+		}
 		return fmt.Sprintf("Est %d", a.p)
 	case 1:
 		return fmt.Sprintf("Lost %d", a.p)
@@ -386,6 +390,56 @@ func (a act) String() string {
 	default:
 		return fmt.Sprintf("Resolve %d->%d", a.src, a.dst)
 	}
+}
+
+// effective returns the order of the lock regions the property's reading is
+// applied to: HandleLinkEstablished calls made before the constructor returned
+// block, and run right after it.  idx maps positions of h to positions of the result.
+func effective(h []act) (out []act, idx []int, early []act) {
+	ready := -1
+	for i, a := range h {
+		if a.kind == 3 {
+			ready = i
+			break
+		}
+	}
+	idx = make([]int, len(h))
+	if ready < 0 {
+		for i := range h {
+			idx[i] = i
+		}
+		return h, idx, nil
+	}
+	for i := 0; i < ready; i++ {
+		if h[i].kind == 0 && h[i].early {
+			early = append(early, h[i])
+			idx[i] = -1
+			continue
+		}
+		idx[i] = len(out)
+		out = append(out, h[i])
+	}
+	idx[ready] = len(out)
+	out = append(out, h[ready])
+	out = append(out, early...)
+	for i := ready + 1; i < len(h); i++ {
+		idx[i] = len(out)
+		out = append(out, h[i])
+	}
+	return out, idx, early
+}
+
+// ambiguousEarly: two different early links share a uuid (their order after
+// the constructor returned decides which one survives).
+func ambiguousEarly(u []lspec, early []act) bool {
+	for i, a := range early {
+		for _, b := range early[i+1:] {
+			if a.p != b.p && u[a.p].uuid == u[b.p].uuid && u[a.p].remote != 1 && u[b.p].remote != 1 {
+				return true
+			}
+		}
+	}
+	return false
 }
 
 func univTerm(u []lspec) string {
@@ -406,14 +460,15 @@ func natSet(m map[int]bool) []int {
 }
 
 type result struct {
-	obs     [][]int
-	links   map[uint64]int
-	byPeer  map[int][]int
-	gpl     map[int][]int
-	closed  []int
-	flinks  []*fakeLink
-	held    [][2]int
-	startup bool
+	obs       [][]int
+	links     map[uint64]int
+	byPeer    map[int][]int
+	gpl       map[int][]int
+	closed    []int
+	flinks    []*fakeLink
+	held      [][2]int
+	startup   bool
+	ambiguous bool
 }
 
 // peersOf returns the model peer numbers that occur in a universe (plus 1).
@@ -461,10 +516,19 @@ func executeMode(c *hx.Ctx, w world, u []lspec, h []act, concurrent int, startup
 	quiesce()
 	res := &result{flinks: fl, held: heldKeys, startup: startup}
 	step := 0
+	heff, effIdx, earlyActs := effective(h)
+	ambiguous := ambiguousEarly(u, earlyActs)
+	res.ambiguous = ambiguous
 	apply := func(a act) []int {
 		switch a.kind {
 		case 0:
-			e.handler.HandleLinkEstablished(fl[a.p])
+			if a.early {
+				// from a goroutine, as a transport constructor that already runs
+				// its accept loop would: blocks in tpt.Await until construction ends
+				go e.handler.HandleLinkEstablished(fl[a.p])
+			} else {
+				e.handler.HandleLinkEstablished(fl[a.p])
+			}
 		case 1:
 			e.handler.HandleLinkLost(fl[a.p])
 		case 3:
@@ -496,12 +560,12 @@ func executeMode(c *hx.Ctx, w world, u []lspec, h []act, concurrent int, startup
 				if ml.GetRemotePeer() == pids[w.local] {
 					c.Failf("resolve-self-link", descHist(u, h), "%s yielded a link to the local peer", a)
 				}
-				if !inInts(liveAt(u, h, step), idx) {
+				if !ambiguous && !inInts(liveAt(u, heff, effIdx[step]), idx) {
 					c.Failf("lost-link-still-yielded", descHist(u, h), "event %d: %s yielded link %d which is not established-and-not-lost at that point (closed %d times)", step, a, idx, fl[idx].closes.Load())
 				}
 			}
-			if a.dst != 0 && (a.src == 0 || a.src == 1) {
-				for _, q := range liveAt(u, h, step) {
+			if !ambiguous && a.dst != 0 && (a.src == 0 || a.src == 1) {
+				for _, q := range liveAt(u, heff, effIdx[step]) {
 					if u[q].remote == a.dst && !got[q] {
 						c.Failf("live-link-not-yielded", descHist(u, h), "event %d: %s did not yield the live link %d", step, a, q)
 					}
@@ -663,6 +727,10 @@ func eqInts(a, b []int) bool {
 // oracle checks the C06 statement directly on the observed tables.
 func oracle(c *hx.Ctx, u []lspec, h []act, r *result) {
 	d := descHist(u, h)
+	if r.ambiguous {
+		return
+	}
+	h, _, _ = effective(h)
 	live, est := specLive(u, h)
 	isLive := map[int]bool{}
 	for _, q := range live {
@@ -723,11 +791,29 @@ func oracle(c *hx.Ctx, u []lspec, h []act, r *result) {
 }
 
 func emitHist(c *hx.Ctx, u []lspec, h []act, r *result) {
-	var hs, obs []string
-	for _, a := range h {
-		hs = append(hs, a.term())
+	var hs, obs, earlyTerms []string
+	heff, effIdx, early := effective(h)
+	obsEff := make([][]int, len(heff))
+	for i := range h {
+		if effIdx[i] >= 0 && i < len(r.obs) {
+			obsEff[effIdx[i]] = r.obs[i]
+		}
 	}
-	for _, o := range r.obs {
+	isEarly := map[int]bool{}
+	for i, a := range h {
+		if a.kind == 0 && a.early && effIdx[i] < 0 {
+			isEarly[i] = true
+		}
+	}
+	for i, a := range h {
+		if !isEarly[i] {
+			hs = append(hs, a.term())
+		}
+	}
+	for _, a := range early {
+		earlyTerms = append(earlyTerms, a.term())
+	}
+	for _, o := range obsEff {
 		obs = append(obs, hx.NatList(o))
 	}
 	var lk []string
@@ -761,7 +847,8 @@ func emitHist(c *hx.Ctx, u []lspec, h []act, r *result) {
 		hk = append(hk, "("+hx.Z(int64(k[0]))+", "+hx.Z(int64(k[1]))+")")
 	}
 	d["startup"] = r.startup
-	c.Case(hx.App("Hist", univTerm(u), "1", hx.Bool(r.startup), hx.List(hk), hx.List(hs), hx.List(obs), hx.List(lk), pl(r.byPeer), pl(r.gpl), hx.NatList(r.closed)), d)
+	d["early_link_callbacks"] = fmt.Sprint(early)
+	c.Case(hx.App("Hist", univTerm(u), "1", hx.Bool(r.startup), hx.List(earlyTerms), hx.List(hk), hx.List(hs), hx.List(obs), hx.List(lk), pl(r.byPeer), pl(r.gpl), hx.NatList(r.closed)), d)
 }
 
 // genUniverse: 2-4 links over 1-2 uuids and 1-3 remote peers (incl. self).
@@ -826,6 +913,7 @@ func genHistory(c *hx.Ctx, u []lspec, n int, resolves bool, reest bool) []act {
 }
 
 func classify(c *hx.Ctx, u []lspec, h []act) {
+	h, _, _ = effective(h)
 	live, est := specLive(u, h)
 	replaced, late, dup, self := false, false, false, false
 	cur := []int{}
@@ -1062,13 +1150,45 @@ func c04(c *hx.Ctx) {
 		second := i%2 == 0
 		if startup {
 			var pre []act
-			for j, k := 0, 1+c.Rng.Intn(4); j < k; j++ {
-				src := []int{0, 1, 3, 5, 5}[c.Rng.Intn(5)]
-				dst := []int{2, 2, 3, 4, 1, 0}[c.Rng.Intn(6)]
-				pre = append(pre, act{kind: 2, src: src, dst: dst})
+			if c.Rng.Intn(2) == 0 { // make sure a self-dial link exists to be reported early
+				u[c.Rng.Intn(len(u))].remote = 1
+				h = genHistory(c, u, 4+c.Rng.Intn(9), true, false)
 			}
-			if i%9 == 0 { // the request the property text names: foreign source, target of a later link
-				pre = append(pre, act{kind: 2, src: 5, dst: u[0].remote})
+			usedEarly := map[int]bool{}
+			for j, k := 0, 1+c.Rng.Intn(5); j < k; j++ {
+				switch r := c.Rng.Intn(10); {
+				case r < 4:
+					// link callbacks while the controller is still starting: self-links,
+					// duplicates, same-uuid links
+					p := c.Rng.Intn(len(u))
+					if c.Rng.Intn(3) == 0 {
+						for q := range u {
+							if u[q].remote == 1 {
+								p = q
+							}
+						}
+					}
+					pre = append(pre, act{kind: 0, p: p, early: true})
+					usedEarly[p] = true
+				case r < 5:
+					pre = append(pre, act{kind: 1, p: c.Rng.Intn(len(u))})
+				default:
+					src := []int{0, 1, 3, 5, 5}[c.Rng.Intn(5)]
+					dst := []int{2, 2, 3, 4, 1, 1, 0}[c.Rng.Intn(7)]
+					pre = append(pre, act{kind: 2, src: src, dst: dst})
+				}
+			}
+			if len(usedEarly) > 0 {
+				c.Class("startup-link-callbacks-before-transport")
+				// the later history must not report the same link objects established again
+				var h2 []act
+				for _, a := range h {
+					if a.kind == 0 && usedEarly[a.p] {
+						continue
+					}
+					h2 = append(h2, a)
+				}
+				h = h2
 			}
 			h = append(append(pre, act{kind: 3}), h...)
 			// ask again for what was requested early, after the links came up
